@@ -57,6 +57,8 @@ FAULTS = [
     ("undefined-deferred-arg-unused", ".macro zz_mu(a) {\nnop\n}\nzz_mu(zz_nowhere)"),
     ("undefined-deferred-arg-shadowing", "zz_value = 0x0F\n.macro zz_set(zz_value) {\nlda.b #zz_value\n}\nzz_set(zz_nowhere)"),
     ("undefined-symbol-rhs-shadowing", "zz_o = 5\n{\nzz_o = zz_nowhere\n.db zz_o\n}"),
+    # an operator the scanner lexes but the evaluator does not know, in a condition (elsewhere: see unknown-operator)
+    ("unknown-operator-in-if", ".if 1 == 1 {\nnop\n}"), ("unknown-operator-in-if", ".if 2 > 1 {\nnop\n} else {\nrts\n}"),
     ("undefined-assign", "zz_x := zz_nowhere"), ("undefined-for-bound", ".for zz_i := 0, zz_nowhere {\nnop\n}"),
     # the program counter walks out of the last mapped bank (no *= onto an unmapped bank involved)
     ("run-off-mapped", "*=0x6FFFFC\n.dw 1, 2, 3, 4\nnop"),
